@@ -111,6 +111,28 @@ func checkC18(c *Ctx, r *Report) {
 		})
 		r.Check(okNodes, "C18.b", "R2 COVERAGE", f.Name+"/node-per-state", c.pos(f.Decl.Pos()), "one node is created for every state of the LR(0) collection", "not every state of the collection gets a node")
 	}
+	// labels and annotations are assembled with constant formats only: run-time text (item strings, symbol names)
+	// must travel as an argument, never as part of a format
+	{
+		n, fnd := nonConstantFormats(c, "LALR", "Graph", "Grammar")
+		var diag []fmtFinding
+		for _, x := range fnd {
+			switch x.fn.Decl.Name.Name {
+			case "DrawGrammar", "GenDotGraph", "AddEdge", "StateGraphNode", "ItemToStr", "ShowCloure", "Show", "showTrans",
+				"ShowDrSet", "ShowReadSet", "ShowFollowSet", "ShowLookAheadSet", "ShowAndCheckConflict":
+				diag = append(diag, x)
+			}
+		}
+		bad := ""
+		pos := "LALR/LALRDraw.go"
+		if len(diag) > 0 {
+			bad = diag[0].fn.Name + ": the format of " + exprString(diag[0].call.Fun) + " contains " + diag[0].why
+			pos = c.pos(diag[0].call.Pos())
+		}
+		r.Check(bad == "", "C18.a", "R1 FORMAT-PROVENANCE", "LALR+Graph+Grammar/display-formats-are-constant", pos,
+			fmt.Sprintf("%d formatting calls in the diagram and listing code: every format string is built from constants, item and symbol text is passed as arguments", n),
+			"a diagram/listing format string contains run-time text — a '%' inside an item or symbol name (the token '%') is then taken for a verb and swallows the annotation: "+bad)
+	}
 	// node-name format agreement
 	formats := map[string][]string{}
 	for _, fr := range []struct{ dir, recv, name string }{{"Graph", "GraghNode", "GenDotGraph"}, {"Graph", "", "AddEdge"}, {"LALR", "LALR1", "DrawGrammar"}} {
